@@ -242,7 +242,7 @@ EXPORT wchar_t *_wcstok_s_chk(wchar_t *restrict dest, rsize_t *restrict dmaxp,
     if (destbos == BOS_UNKNOWN || !orig_dest) {
         BND_CHK_PTR_BOUNDS(dest, destsz);
     } else {
-        if (unlikely(destsz > destbos)) {
+        if (unlikely(destsz > destbos || destsz / sizeof(wchar_t) != dlen)) {
             invoke_safe_str_constraint_handler("wcstok_s: *dmaxp exceeds dest",
                                                (void *)dest, EOVERFLOW);
             errno = EOVERFLOW;
